@@ -463,3 +463,28 @@ func ReturnsOf(fn *ssa.Function) []*ssa.Return {
 	})
 	return out
 }
+
+// ReturnValues resolves the results of a Return, looking through the defer-spill idiom
+// (`*cell = v; rundefers; t = *cell; return t`) to the value stored in the same block.
+func ReturnValues(ret *ssa.Return) []ssa.Value {
+	out := make([]ssa.Value, len(ret.Results))
+	for i, rv := range ret.Results {
+		out[i] = rv
+		u, ok := rv.(*ssa.UnOp)
+		if !ok || u.Op != token.MUL {
+			continue
+		}
+		cell, ok := u.X.(*ssa.Alloc)
+		if !ok {
+			continue
+		}
+		instrs := ret.Block().Instrs
+		for j := len(instrs) - 1; j >= 0; j-- {
+			if st, ok := instrs[j].(*ssa.Store); ok && st.Addr == ssa.Value(cell) {
+				out[i] = st.Val
+				break
+			}
+		}
+	}
+	return out
+}
